@@ -100,21 +100,24 @@ def run(R, tier):
     forms = [('R >> x', lambda Rm, x: Rm >> x), ('R * x', lambda Rm, x: Rm * x), ('x * R', lambda Rm, x: x * Rm), ('R | x', lambda Rm, x: Rm | x),
              ('R ^ x', lambda Rm, x: Rm ^ x), ('x.hodge()', lambda Rm, x: x.hodge()), ('R.cp(x)', lambda Rm, x: Rm.cp(x)), ('~x + R*x', lambda Rm, x: ~x + Rm * x),
              ('0.5 * (R * x)', lambda Rm, x: 0.5 * (Rm * x)), ('(x * R) / 4', lambda Rm, x: (x * Rm) / 4),
-             ('(R | x) * R', lambda Rm, x: (Rm | x) * Rm), ('R * (x | R)', lambda Rm, x: Rm * (x | Rm))]   # rows with a common symbolic factor   # non-integer entries from integer inputs
-    for it in range(26 if tier == 'quick' else 200):
+             ('(R | x) * R', lambda Rm, x: (Rm | x) * Rm), ('R * (x | R)', lambda Rm, x: Rm * (x | Rm)),
+             ('-R * x * R.inv()', lambda Rm, x: -Rm * x * Rm.inv())]   # reflection in an unnormalised vector: fractions from integer inputs   # rows with a common symbolic factor   # non-integer entries from integer inputs
+    for it in range(44 if tier == 'quick' else 240):
         d = rng.choice((2, 3))
         alg = algs.make_impl({'sig': [rng.choice((1, 1, -1, 0)) for _ in range(d)]})
         name, f = rng.choice(forms)
         kind = rng.choice(['symbolic', 'numeric', 'array'])
         gx = rng.randint(0, d)
-        if it < len(forms):               # every form once with a symbolic other input and a vector x (deterministic part)
-            name, f = forms[it]
-            kind = 'symbolic'
+        if it < 2 * len(forms):           # every form once with a symbolic and once with an integer-valued other input and a vector x (deterministic part)
+            name, f = forms[it % len(forms)]
+            kind = 'symbolic' if it < len(forms) else 'numeric'
             alg = algs.make_impl({'sig': [1] * d})
             gx = 1
+        if 'inv' in name:                  # the reflection needs an invertible vector R
+            alg = algs.make_impl({'sig': [1] * d})
         x = alg.purevector(name='x', grade=gx)
         gR = tuple(sorted(rng.sample(range(d + 1), rng.randint(1, 2))))
-        if it < len(forms):
+        if it < 2 * len(forms) or 'inv' in name:
             gR = (1,)
         nR = len(alg.indices_for_grades[gR])
         if kind == 'symbolic':
